@@ -49,6 +49,14 @@ func InstrEffects(in ssa.Instruction) []string {
 		if x.Op == token.MUL && isFieldPath(x.X) {
 			out = append(out, "load:"+TypedPath(x.X))
 		}
+	case *ssa.Slice:
+		// an array that is a field, sliced: the storage inside the struct is handed out (append/copy/index through the
+		// slice write into the struct itself)
+		if pt, ok := x.X.Type().Underlying().(*types.Pointer); ok && isFieldPath(x.X) {
+			if _, isArr := pt.Elem().Underlying().(*types.Array); isArr {
+				out = append(out, "slice:"+TypedPath(x.X))
+			}
+		}
 	case *ssa.MapUpdate:
 		out = append(out, "mapupdate:"+TypedPath(x.Map))
 	case *ssa.Lookup:
